@@ -151,6 +151,21 @@ func ext4PrefixScenarios(cfg fatCfg, oracle string, depth int) []*fatScen {
 	le := []fsOp{{Kind: "append", Path: "x.bin", Len: "c+1"}, {Kind: "append", Path: "y.bin", Len: "5c"}, W("x.bin", "cmid", "5c"), W("x.bin", "mid", "c+1"), W("y.bin", "past", "1"),
 		{Kind: "readpartial", Path: "x.bin"}, {Kind: "readpartial", Path: "y.bin"}, {Kind: "remove", Path: "x.bin"}, {Kind: "create", Path: "z"}, {Kind: "reopen"}}
 	out = append(out, &fatScen{Name: "extents", Cfg: cfg, Prefix: pe, Letters: le, Depth: depth, Oracle: oracle})
+	// fragdir: a directory that grows block by block while file data lands between its blocks, until it needs a
+	// fifth discontiguous extent (the library then re-lays the directory out in one run)
+	long := func(i int) string { return fmt.Sprintf("frag/%02d-%s", i, strings.Repeat("n", 190)) }
+	var pf []fsOp
+	pf = append(pf, fsOp{Kind: "mkdir", Path: "frag"})
+	nfrag := 15
+	if cfg.E4SectorsPerBlock >= 8 {
+		nfrag = 75
+	}
+	for i := 0; i < nfrag; i++ {
+		pf = append(pf, W(long(i), "0", "c"))
+	}
+	lfr := []fsOp{W(long(90), "0", "c"), W(long(91), "0", "c+1"), W(long(92), "0", "1"), W(long(93), "0", "c"), W(long(94), "0", "c"), {Kind: "mkdir", Path: "frag/sub-" + strings.Repeat("d", 180)},
+		{Kind: "remove", Path: long(3)}, W(long(0), "eof", "c+1"), {Kind: "reopen"}}
+	out = append(out, &fatScen{Name: "fragdir", Cfg: cfg, Prefix: pf, Letters: lfr, Depth: depth + 1, Oracle: oracle})
 	// enospc: fill the volume
 	lfill := []fsOp{W("F1", "0", "p40"), W("F1", "0", "p70"), W("F2", "0", "p40"), W("F2", "0", "p70"), {Kind: "remove", Path: "F1"}, {Kind: "remove", Path: "F2"}, {Kind: "mkdir", Path: "DIR"}, {Kind: "create", Path: "DIR/x"}, {Kind: "reopen"}}
 	out = append(out, &fatScen{Name: "enospc", Cfg: cfg, Letters: lfill, Depth: depth, Oracle: oracle})
@@ -163,8 +178,11 @@ func ext4AllScens(oracle string, quick bool, depth int) []*fatScen {
 		out = append(out, ext4Scenarios(c, oracle, depth, quick)...)
 		if i == 0 || !quick {
 			pd := depth - 1
-			if pd < 2 {
+			if pd < 2 && oracle != "e2fsck" {
 				pd = 2
+			}
+			if pd < 1 {
+				pd = 1
 			}
 			out = append(out, ext4PrefixScenarios(c, oracle, pd)...)
 		}
